@@ -19,6 +19,7 @@
 #![warn(missing_docs)]
 #![warn(missing_debug_implementations)]
 #![cfg_attr(docsrs, feature(doc_auto_cfg))]
+#![allow(unexpected_cfgs)]
 
 // We only support 64bit. Fail build when attempting to build other targets
 #[cfg(not(target_pointer_width = "64"))]
@@ -60,6 +61,9 @@ pub mod mmap;
 pub use mmap::{Error, GuestMemoryMmap, GuestRegionMmap, MmapRegion};
 #[cfg(all(feature = "backend-mmap", feature = "xen", target_family = "unix"))]
 pub use mmap::{MmapRange, MmapXenFlags};
+
+#[cfg(vm_memory_verif)]
+pub mod verif;
 
 pub mod volatile_memory;
 pub use volatile_memory::{
